@@ -1,0 +1,8 @@
+//go:build !verif
+// +build !verif
+
+package deflate
+
+func vtrace(ev string, a, b, c, d int) {}
+
+func vbool(b bool) int { return 0 }
